@@ -1,0 +1,18 @@
+//go:build verif
+
+package switchr
+
+import (
+	"github.com/mycoria/mycoria/frame"
+	"github.com/mycoria/mycoria/mgr"
+)
+
+// VerifHandleFrame runs the body of the switch worker loop for one frame inside mgr.Do, so
+// that a recovered panic surfaces as mgr.ErrWorkerPanic.
+func (s *Switch) VerifHandleFrame(f frame.Frame) (handlerErr, workerErr error) {
+	workerErr = s.mgr.Do("verif switch", func(w *mgr.WorkerCtx) error {
+		handlerErr = s.handleFrame(f)
+		return nil
+	})
+	return handlerErr, workerErr
+}
